@@ -453,6 +453,19 @@ where
                 h.stat("C12.bad_index");
                 h.expect(u.is_err(), "C12.bad_index", "out-of-range update position not refused with an error", &[id]);
             }
+            // out-of-range positions with new == old ("nothing to do") must be refused too
+            for bad in [l, l + 1, usize::MAX] {
+                let u = update::<CS>(h, &sig, &sk, &cur[0], &cur[0], bad, l);
+                let id = h.last();
+                h.expect(u.is_err(), "C12.bad_index_same_value", "out-of-range update with new == old not refused with an error", &[id]);
+            }
+            let u = update::<CS>(h, &sig, &sk, &cur[0], &cur[0], 0, usize::MAX);
+            h.expect(u.is_err(), "C12.bad_n_same_value", "n = usize::MAX with new == old not refused with an error", &[h.last()]);
+            // in-range refresh with new == old keeps a verifying signature
+            if let Some(same) = update::<CS>(h, &sig, &sk, &cur[0], &cur[0], 0, l).ok() {
+                let v = verify::<CS>(h, &pk, same.bbsPlusSignature(), hdr.as_deref(), Some(&cur));
+                h.expect(v.is_ok(), "C12.refresh", "update with new == old does not verify", &[h.last()]);
+            }
             if chain == 0 {
                 let u = update::<CS>(h, &sig, &sk, &cur[0], b"x", 0, usize::MAX);
                 h.expect(u.is_err(), "C12.bad_n", "n = usize::MAX not refused with an error", &[h.last()]);
